@@ -11,7 +11,7 @@ from vf.fixtures import RecSystem, RecCollector, FalsySystem, check, expect_rais
 PROPERTY = "C01"
 BUDGET = {"quick": 2400, "thorough": 6000}
 RULE = ("Histories (1-40 ops) of add(id, priority)/remove(id)/step(n) over a pool of 7 system ids with tie-heavy "
-        "integer priorities (incl. collectors with their default priority and system objects that are falsy), interpreted against the real scheduler and "
+        "integer priorities (Python ints of any size and numpy integer scalars incl. unsigned ones) (incl. collectors with their default priority and system objects that are falsy), interpreted against the real scheduler and "
         "a sorted-list model (key = -priority, registration sequence); plus the exhaustive box. Non-trivial: at some "
         "executed timestep >= 3 systems with >= 2 priority levels and >= 1 tie are registered, or an id is removed and "
         "re-registered. Distinct = digest of the operation list.")
@@ -28,7 +28,8 @@ PRIOS = [-1, -3, -2, 0, 1, 2, 3, 10 ** 6, -10 ** 6, BIG, -BIG]
 def _op():
     prio = wone_of(st.sampled_from([-1, 0, 1]), st.sampled_from(PRIOS), st.integers(-4, 4))
     add = st.fixed_dictionaries({"op": st.just("add"), "id": st.integers(0, POOL - 1), "prio": prio,
-                                 "kind": st.sampled_from(["sys", "sys", "sys", "coll", "colldef", "falsy"])})
+                                 "kind": st.sampled_from(["sys", "sys", "sys", "coll", "colldef", "falsy"]),
+                                 "np": st.sampled_from([None, None, None, None, "u8", "i8", "i64", "u64", "u16"])})
     rem = st.fixed_dictionaries({"op": st.just("remove"), "id": st.integers(0, POOL - 1)})
     step = st.fixed_dictionaries({"op": st.just("step"), "n": st.sampled_from([1, 1, 1, 2, 3])})
     return wone_of(add, add, add, rem, step)
@@ -75,6 +76,20 @@ def exhaustive(tier):
                                           {"op": "add", "id": i, "prio": p, "kind": "sys"}, {"op": "step", "n": 1}]}
 
 
+NP_KINDS = {"u8": "uint8", "i8": "int8", "i64": "int64", "u64": "uint64", "u16": "uint16"}
+
+
+def as_priority(op, prio):
+    """numpy integer scalars are integers too (ECAgent depends on numpy): the order is by VALUE"""
+    kind = op.get("np")
+    if kind in NP_KINDS:
+        import numpy as np
+        info = np.iinfo(NP_KINDS[kind])
+        v = min(max(int(prio), int(info.min)), int(info.max))
+        return getattr(np, NP_KINDS[kind])(v), v
+    return prio, prio
+
+
 def run_case(case):
     model = Model()
     log = []
@@ -101,15 +116,16 @@ def run_case(case):
             i, prio = int(op["id"]) % POOL, int(op["prio"])
             sid = f"s{i}"
             token += 1
+            given, prio = as_priority(op, prio)
             if op.get("kind") == "coll":
-                obj = RecCollector(sid, model, log, token, priority=prio)
+                obj = RecCollector(sid, model, log, token, priority=given)
             elif op.get("kind") == "colldef":
                 obj = RecCollector(sid, model, log, token)
                 prio = -1
             elif op.get("kind") == "falsy":
-                obj = FalsySystem(sid, model, log, token, priority=prio)
+                obj = FalsySystem(sid, model, log, token, priority=given)
             else:
-                obj = RecSystem(sid, model, log, token, priority=prio)
+                obj = RecSystem(sid, model, log, token, priority=given)
             if i in live:
                 expect_raises("duplicate-add-keyerror", KeyError, model.systems.add_system, obj)
                 labels.add("rejected-add")
